@@ -98,7 +98,12 @@ def search(res, tier, seed, deep=False):
                     m = far(days)
                     if var == "pr": arr[m] = arr[m] * rs.choice([0.0, 3.0, 50.0], m.sum()) + rs.choice([0.0, 1e-4], m.sum())
                     else: arr[m] = arr[m] * rs.choice([1.0, -3.0, 50.0], m.sum()) + rs.normal(0, 100, m.sum())
-                np.random.seed(3); pert = d.apply_location(o2, h2, f2, **tk)
+                try:
+                    np.random.seed(3); pert = d.apply_location(o2, h2, f2, **tk)
+                except Exception:
+                    # the perturbed far-away data are arbitrary; a window there on which a distribution fit gives up is
+                    # not a statement about the target day: no comparison possible, counted
+                    res.count("perturbed-run-raised:" + name); continue
             idx = np.where(np.asarray(dA) == target)[0]
             inp = dict(debiaser=name, variable=var, L=L, S=S, target_day=target, starts=[str(s) for s in starts], n=[nO, nH, nF], time_dtype=rep, seed=seed)
             res.case(("locality", name, var, Lo == So, rep, L >= 363))
